@@ -47,6 +47,16 @@ CHECKS = {
   "For exchange prefixes {0..300 steps} x endings {close by client / server / both, either peer vanishing, both idle} x idle-timeout/keep-alive matrix x window-limited closers: ConnectionLost at most once (and not after a reported loss), first transmit after close() carries CONNECTION_CLOSE, only the Close timer remains and drain happens within 3 PTO, exactly one Drained event after which the endpoint forgets the connection (open_connections, routing, silence), the peer learns the closer's exact code/reason over a delivering path, TimedOut within [last rx + idle, last restart + max(idle, 3 PTO)], no TimedOut with keep-alives.",
   "negotiated idle timeout recomputed from both configurations; lateness of the simulated driver added to upper bounds; amplification-limited closers and zombie connections born from duplicated Initials are excused; Reset reported after a local close is a recorded known finding (required by the repository's own test)",
   "DESIGN.md section 4 C08"),
+ "C09": ("exploration",
+  "runtime monitoring: routing oracle on every delivered datagram (producing connection's pair id vs the handle the endpoint returns) + per-pair payload keys + isolation oracle",
+  "Worlds with 2-8 client endpoints and several connections per endpoint on one server, CID lengths 0..20, three CID generators, CID rotation by lifetime, rebinding, connections closed mid-run and slots reused, quick reconnects to an address-routed (zero-length CID) server: every genuine datagram must be routed to its producer's own peer or to nothing, payloads are keyed by pair so leaks trip the C01/C16 oracles, connections nobody closed are never lost and complete.",
+  "pairing by harness-chosen initial DCID; an endpoint with zero-length CIDs is allowed to route by address tuple as the property states",
+  "DESIGN.md section 4 C09"),
+ "C20": ("exploration",
+  "runtime monitoring: differential trace comparison of replayed, time-translated and spurious-call executions + strace syscall monitor",
+  "Each input history is executed four times and the full output trace (instant, destination, ECN, segment size, byte hash of every Transmit; every Event and EndpointEvent) compared: exact replay, all instants shifted by 1 us..49 days, spurious handle_timeout / extra poll calls inserted. Timer servicing at one instant settles within 64 rounds, poll_transmit after None stays None, drained connections are silent for every poll, and a steady-state transfer under strace performs no getrandom().",
+  "plaintext lane with seeded endpoints, harness CID generator and virtual TimeSource; rustls lane and thread-RNG CID generators are out of scope by construction",
+  "DESIGN.md section 4 C20"),
 }
 NOT_YET = "check not built yet (work in progress; see DESIGN.md section 4)"
 
